@@ -128,10 +128,10 @@ def restore_player(ctx, league, name, path, ids_seen=None, check=False):
         mu, sigma = league.stored(name)
         label = league.label(name)
         if path == "create_rating":
-            new = type(league.factory).create_rating([mu, sigma], label)
+            new = type(league.factory).create_rating([mu, sigma], label) if label is not None or len(name) % 2 else type(league.factory).create_rating([mu, sigma])
         else:
             path = "rating"
-            new = league.factory.rating(mu, sigma, label)
+            new = league.factory.rating(mu, sigma, label) if label is not None or len(name) % 2 else league.factory.rating(mu, sigma)
         if check:
             check_built(ctx, new, mu, sigma, label, path, ids_seen)
     league.players[name] = new
@@ -161,8 +161,21 @@ def check_built(ctx, r, mu, sigma, name, path, created):
             ctx.violation("C20/restore_value:%s:%s" % (path, f), {"given": enc(want), "held": enc(got) if isinstance(got, (int, float)) else repr(got)})
     if name and getattr(r, "name", None) != name:
         ctx.violation("C20/restore_value:%s:name" % path, {"given": name, "held": repr(getattr(r, "name", None))})
+    if name is None and getattr(r, "name", None) is not None:
+        ctx.violation("C20/restore_value:%s:name" % path, {"given": None, "held": repr(getattr(r, "name", None))})
     if created is not None:
-        created.append((r, path))
+        if len(created) % 2 == 1:
+            # remembered by its id string only: the object itself may be garbage collected, so
+            # that an implementation that RECYCLES the ids of dead ratings is seen handing out
+            # an id that is not fresh
+            created.append((IdOnly(getattr(r, "id", None)), path))
+        else:
+            created.append((r, path))
+
+
+class IdOnly:
+    def __init__(self, rid):
+        self.id = rid
 
 
 def check_ids(ctx, created):
@@ -1019,7 +1032,7 @@ def c13_params(rng):
         "players": rng.choice([8, 12]),
         "population": rng.choice(["default", "mixed", "spread"]),
         "inject_every": rng.choice([2, 3, 5]),
-        "shape": rng.choice([[2, 1], [2, 2], [3, 2], [3, 3], [4, 2], [5, 1], [6, 2], [7, 1], [8, 8]]),
+        "shape": rng.choice([[2, 1], [2, 2], [3, 2], [3, 3], [4, 2], [5, 1], [6, 2], [7, 1], [8, 8], [10, 1], [2, 10]]),
         "opt_rate": 0.2,
     }
 
@@ -1110,6 +1123,12 @@ class RejectDriver:
             st, val = call_outcome(lambda: faults.invoke(league.model, call, args, kw))
             ctx.evaluations += 1
             ctx.fault("malformed")
+            if st != "ok" and (len(label) + len(names)) % 5 == 0 and not any(k in label for k in ("generator", "map")):
+                # the very same malformed call once more: it must be refused the same way
+                st2, val2 = call_outcome(lambda: faults.invoke(league.model, call, args, kw))
+                ctx.count("malformed_call_repeated")
+                if st2 == "ok" or type(val2) is not type(val):
+                    st, val = st2, val2
             post_r = rating_digest(objs)
             post_m = model_state(league.model)
             if saved is not None:
@@ -1188,7 +1207,7 @@ class RejectDriver:
 
 def c20_params(rng):
     return {
-        "length": rng.choice([10, 25, 60, 150]),
+        "length": rng.choice([10, 25, 60, 150, 600] if rng.random() < 0.1 else [10, 25, 60, 150]),
         "players": rng.choice([4, 6, 10, 16]),
         "population": rng.choice(["default", "mixed", "spread", "spread"]),
         "opt_rate": rng.choice([0.0, 0.2]),
@@ -1299,6 +1318,9 @@ class StoreDriver:
             return {"op": "DEEPCOPY_TEAMS", "teams": gen_match(rng, allnames, None, shape_max=(3, 3))}
         if r < 0.97:
             return {"op": "DEEPCOPY_HISTORY", "names": rng.sample(allnames, min(len(allnames), rng.randint(1, 3)))}
+        if r < 0.971 and not self.mass_done:
+            self.mass_done = True
+            return {"op": "MASS_BUILD", "n": 66000, "path": rng.choice(["rating", "create_rating"])}
         return {"op": "NEW", "name": "p%d" % len([n for n in names if n.startswith("p")])}
 
     def run(self):
@@ -1314,6 +1336,7 @@ class StoreDriver:
         check_ids(ctx, self.ids)
 
     _rosters = None
+    mass_done = False
 
     def fixed_rosters(self, rng, names):
         if not self.ctx.params.get("fixed_rosters"):
@@ -1321,6 +1344,29 @@ class StoreDriver:
         if self._rosters is None:
             self._rosters = make_rosters(rng, names)
         return self._rosters
+
+    def op_MASS_BUILD(self, op):
+        """A big import: tens of thousands of ratings built in one go (more than 2**16); all
+        ids must differ from each other and from every id seen in the run."""
+        ctx = self.ctx
+        m = self.B.model
+        ids = set()
+        n = op["n"]
+        if op.get("path") == "create_rating":
+            mk = type(m).create_rating
+            for i in range(n):
+                ids.add(mk([25.0, 8.0]).id)
+        else:
+            for i in range(n):
+                ids.add(m.rating().id)
+        ctx.evaluations += 1
+        ctx.fault("mass_build")
+        if len(ids) != n:
+            ctx.violation("C20/id_not_fresh:mass_build", {"built": n, "distinct_ids": len(ids)})
+        for r, path in self.ids:
+            if getattr(r, "id", None) in ids:
+                ctx.violation("C20/id_not_fresh:mass_build", {"collides_with": path})
+        ctx.log("MASS_BUILD", n)
 
     def op_NEW(self, op):
         ctx = self.ctx
@@ -1607,7 +1653,10 @@ def _op_DEEPCOPY_HISTORY(self, op):
             continue
         live = self.B.players[n]
         hist = self.snapshots.setdefault(n, [])
-        struct.append({"history": list(hist), "live": [live]})
+        # the containers vary: list / tuple / dict values for the history, list / tuple for live
+        k = len(struct) % 3
+        h = list(hist) if k == 0 else tuple(hist) if k == 1 else {i: x for i, x in enumerate(hist)}
+        struct.append({"history": h, "live": [live] if k != 1 else (live,)})
         hist.append(copy.deepcopy(live))
         del hist[:-3]
     if not struct:
@@ -1615,11 +1664,15 @@ def _op_DEEPCOPY_HISTORY(self, op):
     cp = copy.deepcopy(struct)
     ctx.evaluations += 1
     seen = set()
+
+    def items(c):
+        return list(c.values()) if isinstance(c, dict) else list(c)
+
     for a, b in zip(struct, cp):
         for key in ("history", "live"):
-            if b[key] is a[key] or len(b[key]) != len(a[key]):
+            if (b[key] is a[key] and len(a[key]) > 0 and not isinstance(a[key], tuple)) or type(b[key]) is not type(a[key]) or len(b[key]) != len(a[key]):
                 ctx.violation("C20/deepcopy:nested_inner", {"names": op["names"]})
-            for p, q in zip(a[key], b[key]):
+            for p, q in zip(items(a[key]), items(b[key])):
                 if p is q or id(q) in seen:
                     ctx.violation("C20/deepcopy:identity", {"names": op["names"], "where": key})
                 seen.add(id(q))
